@@ -55,4 +55,10 @@ for p in patches:
         subprocess.run(['git', '-C', '/repo', 'worktree', 'remove', '--force', w], capture_output=True)
         shutil.rmtree(d, ignore_errors=True)
         subprocess.run(['git', '-C', '/repo', 'worktree', 'prune'])
-    json.dump(matrix, open(out_path, 'w'), indent=1, sort_keys=True)
+    # merge on write: other matrix runs may have updated the file meanwhile
+    import fcntl
+    with open(out_path + '.lock', 'w') as lk:
+        fcntl.flock(lk, fcntl.LOCK_EX)
+        cur = json.load(open(out_path)) if os.path.exists(out_path) else {}
+        cur[rel] = matrix[rel]
+        json.dump(cur, open(out_path, 'w'), indent=1, sort_keys=True)
